@@ -15,7 +15,7 @@ PROP = "C09"
 LEAN_MODULES = ["Props.C09"]
 RULE = (
     "case = (binary layout of 2/4/8-byte integer and float fields, ASCII literal and date fields, any order, gaps; "
-    "value list). Line(fields, storage='BINARY').write(values) and .read(bytes) on the real code are compared with the "
+    "value list; optionally earlier records written and read through the SAME Line object first). Line(fields, storage='BINARY').write(values) and .read(bytes) on the real code are compared with the "
     "model's cycle and judged by Spec.C09.holds (length = furthest field end, blank gaps, each field's bytes inside "
     "its span equal the reference encoding, read-back = integers exactly / floats rounded to the IEEE width / "
     "literals stripped / dates truncated to the format / missing numbers 0 and missing text blank). Every quick run "
@@ -43,6 +43,10 @@ def run_impl(case):
             warnings.simplefilter("ignore")
             fs = [codec.mk_field(fd) for fd in case["fields"]]
             ln = Line(fs, storage="BINARY")
+            # records written / read earlier through the SAME line object (a file writer reuses one Line)
+            for pv in case.get("prior", []):
+                pw = ln.write([codec.dec_val(v) for v in pv])
+                ln.read(pw)
             vals = [codec.dec_val(v) for v in case["values"]]
             w = ln.write(vals)
             r = ln.read(w)
@@ -237,7 +241,28 @@ def random_layout(rng):
         pos += size
     order = list(range(n))
     rng.shuffle(order)
-    return {"fields": [fields[i] for i in order], "values": [values[i] for i in order], "fam": "mixed_layout"}
+    case = {"fields": [fields[i] for i in order], "values": [values[i] for i in order], "fam": "mixed_layout"}
+    if rng.random() < 0.5:
+        # earlier records through the same Line: present values where this record has missing ones and vice versa
+        prior = []
+        for _ in range(rng.randrange(1, 3)):
+            pv = []
+            for fd, v in zip(case["fields"], case["values"]):
+                if fd["k"] == "int":
+                    pv.append({"i": rng.randrange(1, 100)})
+                elif fd["k"] == "flt":
+                    pv.append(codec.enc_val(rng.choice([0.1, 1.5, -2.25])))
+                elif fd["k"] == "lit":
+                    pv.append({"s": codec.enc_str("q" * min(1, fd["size"]))})
+                else:
+                    pv.append(codec.enc_val(datetime(2001, 2, 3, 4, 5)))
+            prior.append(pv)
+        case["prior"] = prior
+        case["fam"] = "mixed_layout_after_prior_records"
+        for i in range(len(case["values"])):
+            if rng.random() < 0.5:
+                case["values"][i] = None
+    return case
 
 
 def literal_lengths():
@@ -305,9 +330,13 @@ def cases_of(chunk):
 
 def shrinks(case):
     n = len(case["fields"])
+    if case.get("prior"):
+        yield {k: v for k, v in case.items() if k != "prior"}
+        if len(case["prior"]) > 1:
+            yield {**case, "prior": case["prior"][:1]}
     if n > 1:
         for i in range(n):
-            yield {**case, "fields": [case["fields"][i]], "values": [case["values"][i]]}
+            yield {**case, "fields": [case["fields"][i]], "values": [case["values"][i]], **({"prior": [[pv[i]] for pv in case["prior"]]} if case.get("prior") else {})}
         for i in range(n):
             yield {**case, "fields": case["fields"][:i] + case["fields"][i + 1 :], "values": case["values"][:i] + case["values"][i + 1 :]}
     elif case["fields"][0]["start"] > 0:
